@@ -513,6 +513,17 @@ Theorem C14_rejected_value_rejects : forall defs d v e rest,
 Proof. exact rejected_long_value. Qed.
 Print Assumptions C14_rejected_value_rejects.
 
+(* ... and anywhere on the command line: after any accepted arguments (the terminator "--" not among
+   them) and whatever follows, the command ends with that flag's usage error, in every file system *)
+Theorem C14_rejected_value_ends_command : forall c today pre d v e rest s p fs,
+  parse_args (cmd_flags c) pre = PArgs s p -> ~ In dashdash pre ->
+  find_long (cmd_flags c) (f_name d) = Some d -> f_kind d <> KBool -> ~ In 61 (f_name d) ->
+  match f_name d with [] => False | x :: _ => x <> 45 /\ x <> 61 end ->
+  parse_value (f_kind d) v = VErr e ->
+  run_argv c today (pre ++ (45 :: 45 :: f_name d) :: v :: rest) fs = ORejected (PInvalid (f_name d) e).
+Proof. exact rejected_value_ends_command. Qed.
+Print Assumptions C14_rejected_value_ends_command.
+
 (* conversely, what reaches the command are accepted values only, each of a flag the command has, each in
    the range of its flag (64/32-bit two's complement, years 0..9999, non-negative mapping numbers) *)
 Theorem C14_accepted_values_in_range : forall c argv sets pos,
